@@ -162,13 +162,26 @@ class TemperatureMonitor(fitsim.Monitor):
         if npl == 1:
             self.C["probe.n_plateau_1"] += 1
             return
-        # changes only at plateau boundaries: within the annealing iterations, multiples of one common period
-        if self.changes:
-            p0 = self.changes[0]
-            bad = [k for k in self.changes if k > max(n_ann_adm) or k % p0 != 0]
+        # changes only at plateau boundaries: within the annealing iterations, multiples of one common period,
+        # the period being what n_plateau plateaus spread over the annealing iterations leave to each
+        if self.changes and isinstance(npl, int) and npl >= 2:
+            periods = {n // (npl - 1) for n in n_ann_adm if n // (npl - 1) >= 1} or {self.changes[0]}
+            bad = [k for k in self.changes if k > max(n_ann_adm) or all(k % p != 0 for p in periods)]
             if bad:
                 violation(self.out, "temperature_plateaus", f"change_outside_plateau_boundary:{'after_annealing' if bad[0] > max(n_ann_adm) else 'not_multiple_of_period'}",
                           f"changes at {self.changes[:12]} n_annealing={sorted(n_ann_adm)} n_plateau={npl}")
+        # every change is one equal step (T0 - 1) / (n_plateau - 1), the last one possibly shortened to land on 1
+        if isinstance(npl, int) and npl >= 2:
+            d = (ann["initial_temperature"] - 1.0) / (npl - 1)
+            vals = dict(self.trace)
+            prev_t = self.trace[0][1]
+            for k, t in self.trace[1:]:
+                if t != prev_t:
+                    step = prev_t - t
+                    if not (abs(step - d) <= 1e-9 * max(1.0, abs(d)) or (t == 1.0 and step <= d * (1 + 1e-9))):
+                        violation(self.out, "temperature_plateaus", "unequal_temperature_step", f"k={k}: {prev_t!r} -> {t!r}, expected step {d!r}")
+                        break
+                prev_t = t
         # exactly 1 once the annealing iterations are over
         after = [(k, t) for k, t in self.trace if k >= max(n_ann_adm) and k >= 1]
         if after:
